@@ -7,6 +7,7 @@ canary; no element named vx7q..., no attribute named vx7qattr... may exist in th
 and displayed fields must contain the payload verbatim after parsing."""
 import re
 import json
+import html
 from html.parser import HTMLParser
 from xml.parsers import expat
 
@@ -54,6 +55,10 @@ ACCEPTS = [None, '', 'text/html', 'application/json', 'application/xml', 'text/p
            'image/png;q=0.9, text/plain;q=0.1', 'application/xml;q=1.0, application/json;q=0.999',
            'text/html;q=0.1, */*', 'application/xml;q=0.2, application/*', 'application/json;q=0.1, text/html;q=0.2, text/*;q=0.9',
            'text/*;q=0.3, application/json;q=0.2', '*/*;q=0.1, text/plain;q=0.05', 'application/*;q=0.5, text/html;q=0.4, */*;q=0.1',
+           # one type with and without a media-type parameter, at different qualities
+           'text/html;level=1;q=0.2, text/html;q=0.9, application/json;q=0.6', 'application/json;version=2;q=1.0, application/json;q=0.1, application/xml;q=0.5',
+           'text/html;level=1, application/xml;q=0.4', 'application/xml;profile="x";q=0.9, text/plain;q=0.3, application/xml;q=0.1',
+           'text/plain;format=flowed;q=0.9, text/html;q=0.5',
            # long real-world headers: size and number of ranges must not matter
            'text/html,application/xhtml+xml,application/xml;q=0.9,image/avif,image/webp,image/apng,*/*;q=0.8,application/signed-exchange;v=b3;q=0.7',
            'application/vnd.api+json, application/vnd.github.v3+json;q=0.95, application/vnd.verif.v2+json;q=0.9, application/hal+json;q=0.8, application/json;q=0.6',
@@ -79,10 +84,17 @@ def parse_accept(h):
         if not m:
             return None
         q = 1.0
+        skip = False
         for p in m.group(3).split(';'):
             p = p.strip()
             if p and not p.lower().startswith('q='):
-                return None     # media-type parameters: matching rules differ between implementations - don't-care
+                if p.lower().startswith('charset'):
+                    return None     # our representations do carry a charset: whether such a range covers them is left open
+                # any other media-type parameter: the range covers only representations that have it (RFC 7231 5.3.2) -
+                # none of ours does, so it says nothing about them.  Measured before adopting: the unchanged tree agrees
+                # with this reading on 20 000 random headers with parameterised ranges.
+                skip = True
+                continue
             if p.lower().startswith('q='):
                 v = p[2:]
                 if not re.match(r'^(0(\.\d{0,3})?|1(\.0{0,3})?)$', v):
@@ -91,7 +103,8 @@ def parse_accept(h):
         t, s = m.group(1).lower(), m.group(2).lower()
         if t == '*' and s != '*':
             return None
-        out.append((t, s, q))
+        if not skip:
+            out.append((t, s, q))
     return out
 
 
@@ -258,7 +271,20 @@ def ep_boom():
     spec = probe.current_token()
     local_value = spec.get('local')          # shows up among the frame's locals on debug pages
     another = {'nested': [local_value]}
-    raise {'ValueError': ValueError, 'RuntimeError': RuntimeError, 'Custom': CustomErr}[spec.get('exc', 'ValueError')](spec.get('msg'))
+    exc = {'ValueError': ValueError, 'RuntimeError': RuntimeError, 'Custom': CustomErr}[spec.get('exc', 'ValueError')](spec.get('msg'))
+    frame = spec.get('frame')
+    # frames whose names are not identifiers (<lambda>, <genexpr>, <listcomp>-like) end up in tracebacks and debug pages
+    if frame == 'lambda':
+        return (lambda: _raise(exc))()
+    if frame == 'genexpr':
+        return list(_raise(exc) for _ in range(1))
+    if frame == 'nested-lambda':
+        return (lambda f: f())(lambda: (lambda: _raise(exc))())
+    raise exc
+
+
+def _raise(exc):
+    raise exc
 
 
 class CustomErr(Exception):
@@ -271,8 +297,12 @@ _apps = {}
 def app_for(kind):
     if kind not in _apps:
         from clastic import Application, Route
+        from clastic import render_basic, render_json
         routes = [Route('/err', ep_err), Route('/boom', ep_boom), Route('/only-get', lambda: None, methods=['GET']),
-                  Route('/item/<name>/', ep_boom)]
+                  Route('/item/<name>/', ep_boom), Route('/only-post', lambda: None, methods=['POST', 'PUT']),
+                  # the same endpoints on routes that have a renderer (it has no say over errors)
+                  Route('/err-rendered', ep_err, render_basic), Route('/err-json', ep_err, render_json),
+                  Route('/boom-rendered', ep_boom, render_basic)]
         _apps[kind] = Application(routes, debug=(kind == 'debug'))
     return _apps[kind]
 
@@ -287,6 +317,7 @@ def gen_case(rng, n):
         case['cls'] = rng.pick(CLASSES)
         case['how'] = rng.pick(['raise', 'return'])
         case['nonbreaking'] = rng.chance(0.3)
+        case['via'] = rng.pick(['/err', '/err', '/err-rendered', '/err-json'])
         for f in ('detail', 'message', 'error_type'):
             if rng.chance(0.6):
                 case[f] = payload(rng, n)
@@ -300,14 +331,16 @@ def gen_case(rng, n):
         case['path'] = '/' + payload(rng, n).replace('\n', ' ').replace('\t', ' ') + rng.pick(['', '/x', '/'])
         case['query'] = rng.pick(['', 'k=v'])
     elif kind == '405':
-        case['method'] = rng.pick(['POST', 'DELETE', 'FOO'])
+        case['path405'] = rng.pick(['/only-get', '/only-post'])
+        case['method'] = rng.pick(['POST', 'DELETE', 'FOO']) if case['path405'] == '/only-get' else rng.pick(['GET', 'DELETE', 'PATCH'])
     else:
         case['exc'] = rng.pick(['ValueError', 'RuntimeError', 'Custom'])
         case['msg'] = payload(rng, n)
         case['local'] = payload(rng, n + 1000000)
         case['hdr'] = payload(rng, n + 2000000).replace('\n', ' ').replace('\t', ' ').replace('\x01', '').replace('\x7f', '')
         case['qv'] = payload(rng, n + 3000000)
-        case['via'] = rng.pick(['/boom', '/item/%s/'])
+        case['via'] = rng.pick(['/boom', '/item/%s/', '/boom-rendered'])
+        case['frame'] = rng.pick([None, None, 'lambda', 'genexpr', 'nested-lambda'])
         case['seg'] = payload(rng, n + 4000000).replace('/', '_').replace('\n', ' ').replace('\t', ' ')
     return case
 
@@ -323,11 +356,11 @@ def send(case):
         headers['Accept'] = case['accept']
     kind = case['kind']
     if kind == 'class':
-        return probe.request(app, 'GET', '/err', headers=headers, token=case, trace=spies.new_trace())
+        return probe.request(app, 'GET', case.get('via', '/err'), headers=headers, token=case, trace=spies.new_trace())
     if kind == '404':
         return probe.request(app, 'GET', case['path'], case.get('query', ''), headers=headers, token=case)
     if kind == '405':
-        return probe.request(app, case['method'], '/only-get', headers=headers, token=case)
+        return probe.request(app, case['method'], case.get('path405', '/only-get'), headers=headers, token=case)
     headers['X-Canary'] = case['hdr'].encode('utf8').decode('latin-1')
     q = 'canary=' + quote(case['qv'], safe='')
     path = case['via'] if '%s' not in case['via'] else case['via'] % case['seg']
@@ -371,6 +404,20 @@ def judge(sh, case, record=True):
     elif kind == 'uncaught' and ex.status != 500:
         bad('wrong-status', 'status %s for an uncaught exception' % ex.status)
         return
+    # ---- a 405 speaks about *its* methods ---------------------------------------------------------------
+    want_methods = None
+    if kind == '405':
+        want_methods = {'/only-get': {'GET', 'HEAD'}, '/only-post': {'POST', 'PUT'}}[case.get('path405', '/only-get')]
+    elif kind == 'class' and case.get('cls') == 'MethodNotAllowed' and case.get('allowed') and not case.get('detail'):
+        want_methods = set(case['allowed'])
+    if want_methods is not None and ex.status == 405 and case.get('code') is None:
+        named = set(re.findall(r"\b(GET|HEAD|POST|PUT|DELETE|PATCH|OPTIONS|TRACE|CONNECT)\b", html.unescape(ex.body.decode('utf8', 'replace'))))
+        allow = set(x.strip() for x in (ex.header('Allow') or '').split(',') if x.strip())
+        if allow != want_methods or (named and named != want_methods):
+            bad('405-names-other-methods', 'the route admits %s; Allow header %r, methods named in the body %s'
+                % (sorted(want_methods), ex.header('Allow'), sorted(named)))
+            return
+        sh.hit('405-methods-compared')
     # ---- format negotiation -------------------------------------------------------------------------
     ctype = ex.header('Content-Type') or ''
     mime = ctype.split(';')[0].strip().lower()
